@@ -103,6 +103,16 @@ class SaslLowerer(Lowerer):
             return self.do_once(n, ind)
         return super().stmt(n, ind)
 
+    def binop(self, n):
+        if n.get('opcode') == '<=>':
+            l, r = n['inner']
+            tl, tr = self.tkey(self.skip(l)), self.tkey(self.skip(r))
+            if tl != tr or tl not in ('int', 'unsigned int', 'long', 'unsigned long', 'size_t', 'long long', 'unsigned long long'):
+                raise Unsupported('operator <=> on %s / %s' % (tl, tr))
+            self.fire('op<=>:builtin-integers')
+            return 'CMP3(%s, %s)' % (self.expr(l), self.expr(r))
+        return super().binop(n)
+
     # ------------------------------------------------------------------ function-local `static constexpr` constants and tables
     def static_local(self, v, sp):
         """`static constexpr T x = <constant>;` inside a function has the same value on every call: an ordinary const local.
@@ -719,10 +729,16 @@ def generate_rank(src, cls, enum_counts, xf=()):
     m = re.match(r'std::variant<(.*)>$', bt)
     if not m:
         raise Unsupported('%s: base class is %s, not std::variant' % (cls, bt))
+    own = None
     for c in children(rec):
         if c.get('kind') == 'FieldDecl':
             raise Unsupported('%s has data members of its own' % cls)
         if c.get('kind') == 'CXXMethodDecl' and c.get('name', '').startswith('operator') and not c.get('isImplicit') and c['name'][8:] in ('<=>', '==', '<'):
+            if c['name'] == 'operator<=>' and astx.has_body(c) and not c.get('explicitlyDefaulted') and own is None:
+                # a user-provided three-way comparison of the class itself: a non-template exact match, it is what `a < b` (std::ranges::less)
+                # calls instead of the std::variant base's operator<; it is a repository function and is lowered, not modelled (operator== stays the base's)
+                own = c
+                continue
             raise Unsupported('%s declares its own %s' % (cls, c['name']))
     alts = [canon(a) for a in split_top(m.group(1))]
     if len(set(alts)) != len(alts):
@@ -758,10 +774,15 @@ def generate_rank(src, cls, enum_counts, xf=()):
     less_alt = ' || '.join('((a).index == %s_IDX_%s && %s_LESS((a).alt_%s, (b).alt_%s))' % (cls, a, a, a, a) for a in alts if a in fields) or 'false'
     eq_alt = ' && '.join('((a).index != %s_IDX_%s || %s_EQ((a).alt_%s, (b).alt_%s))' % (cls, a, a, a, a) for a in alts if a in fields) or 'true'
     out.append('/* A-STD-VARIANT-ORDER: operator< / operator== of std::variant compare index() first, then the held alternatives */')
-    out.append('#define %s_LESS(a, b) ((a).index < (b).index || ((a).index == (b).index && (%s)))' % (cls, less_alt))
+    if own is None:
+        out.append('#define %s_LESS(a, b) ((a).index < (b).index || ((a).index == (b).index && (%s)))' % (cls, less_alt))
+    else:
+        out.append('/* %s declares its own operator<=> : operator< is (a <=> b) < 0 with the LOWERED body of that function (%s_CMP, see below) */' % (cls, cls))
+        out.append('#define CMP3(x, y) ((x) < (y) ? -1 : ((x) > (y) ? 1 : 0))   /* built-in <=> on integers */')
+        out.append('#define %s_LESS(a, b) (%s_CMP(a, b) < 0)' % (cls, cls))
     out.append('#define %s_EQ(a, b) ((a).index == (b).index && %s)' % (cls, eq_alt))
     out.append('#define %s_VALID(m) (0 <= (m).index && (m).index < %s_NALT%s)' % (cls, cls, ''.join(' && ' + v for v in valid)))
-    return '\n'.join(out) + '\n', {'alts': alts, 'fields': fields}
+    return '\n'.join(out) + '\n', {'alts': alts, 'fields': fields, 'own_spaceship': own}
 
 
 def enum_count(src, etype, xf=()):
